@@ -587,7 +587,11 @@ fn cross_validate(rep: &mut Report, ex: &Extracted) {
 /// (5a) local error of one step from exact data over h = 2^-k
 /// `modified`: the step measured is the second one, taken after the callback moved the state onto another
 /// trajectory (ModifiedSolution with y multiplied by 1.25): it starts from exact data of that trajectory
-fn local_order(rep: &mut Report, m: Method, modified: bool) {
+fn local_order(rep: &mut Report, m: Method, mode: usize) {
+    // mode 0: first step from exact data; 1: second step, after a ModifiedSolution at callback 1; 2: first step, after a
+    // ModifiedSolution at the initial callback (the step starts from the state the callback left behind)
+    let modified = mode == 1;
+    let at0 = mode == 2;
     let (p, _, _) = orders(m);
     let probs = vec![base(Base::Riccati), warp(&base(Base::Logistic(2.0)), Warp::Sin), base(Base::Harmonic(1.3)), base(Base::Rational)];
     for (pi, p0) in probs.iter().enumerate() {
@@ -616,7 +620,7 @@ fn local_order(rep: &mut Report, m: Method, modified: bool) {
                     c.rtol = Tol::S(0.0);
                     c.atol = Tol::S(1e30);
                 }
-                let script: Vec<(usize, Ans)> = if modified { vec![(1, Ans::Modified(1.25)), (2, Ans::Interrupt)] } else { vec![(1, Ans::Interrupt)] };
+                let script: Vec<(usize, Ans)> = if modified { vec![(1, Ans::Modified(1.25)), (2, Ans::Interrupt)] } else if at0 { vec![(0, Ans::Modified(1.25)), (1, Ans::Interrupt)] } else { vec![(1, Ans::Interrupt)] };
                 let r = run_lowlevel(&pr, &c, &script, &[], None, false);
                 rep.evaluations += 1;
                 rep.transitions += r.st.n_ode;
@@ -637,6 +641,15 @@ fn local_order(rep: &mut Report, m: Method, modified: bool) {
                     errs.push(e);
                     continue;
                 }
+                if at0 {
+                    let ys: Vec<f64> = y0.iter().map(|v| v * 1.25).collect();
+                    let e = match pr.exact(x0, &ys, x0 + h) {
+                        Some(ex) => r.recs[1].y.iter().zip(&ex).fold(0.0f64, |a, (u, v)| a.max((u - v).abs())),
+                        None => f64::NAN,
+                    };
+                    errs.push(e);
+                    continue;
+                }
                 let ex = pr.exact(x0, &y0, x0 + h).unwrap();
                 let e = r.recs[1].y.iter().zip(&ex).fold(0.0f64, |a, (u, v)| a.max((u - v).abs()));
                 errs.push(e);
@@ -650,21 +663,21 @@ fn local_order(rep: &mut Report, m: Method, modified: bool) {
                 }
             }
             rep.validated += 1;
-            let key = format!("localorder{}:{}:{}:{}", if modified { "-after-modification" } else { "" }, mname(m), pi, backward as u8);
+            let key = format!("localorder{}:{}:{}:{}", if modified { "-after-modification" } else if at0 { "-after-initial-modification" } else { "" }, mname(m), pi, backward as u8);
             // the asymptotic regime: use the last three usable ratios
             let tail: Vec<f64> = observed.iter().rev().take(3).copied().collect();
             if tail.len() >= 2 {
                 let best = tail.iter().fold(f64::NEG_INFINITY, |a, b| a.max(*b));
-                rep.tags.entry(if modified { "local-order-ladder-after-modification" } else { "local-order-ladder" }.into()).and_modify(|c| *c += 1).or_insert(1);
+                rep.tags.entry(if modified || at0 { "local-order-ladder-after-modification" } else { "local-order-ladder" }.into()).and_modify(|c| *c += 1).or_insert(1);
                 // (after a modification the ladder starts from larger states and is shorter above the rounding
                 // floor: DOP853 shows 8.4 on its last usable pair; the defects looked for give 1 or 2)
-                if best < (p + 1) as f64 - if modified { 1.0 } else { 0.4 } {
+                if best < (p + 1) as f64 - if modified || at0 { 1.0 } else { 0.4 } {
                     rep.violations.push(
-                        Violation::new(&key, "local-order", format!("{} on {}{}{}: observed local order {:?} (errors {:?}), expected about {}", mname(m), pr.name, if backward { " backward" } else { "" }, if modified { ", step after ModifiedSolution" } else { "" }, observed, errs, p + 1), json!({"key": key}))
+                        Violation::new(&key, "local-order", format!("{} on {}{}{}: observed local order {:?} (errors {:?}), expected about {}", mname(m), pr.name, if backward { " backward" } else { "" }, if modified { ", step after ModifiedSolution" } else if at0 { ", first step after ModifiedSolution at the initial callback" } else { "" }, observed, errs, p + 1), json!({"key": key}))
                             .with("method", mname(m)),
                     );
                 }
-            } else if m != Method::DOP853 && !modified {
+            } else if m != Method::DOP853 && !modified && !at0 {
                 rep.machinery_errors.push(format!("{}: no usable error ladder on {}", mname(m), pr.name));
             }
         }
@@ -760,8 +773,9 @@ pub fn run_check(replay: Option<Value>) -> i32 {
                 }
             }
         }
-        local_order(&mut rep, m, false);
-        local_order(&mut rep, m, true);
+        local_order(&mut rep, m, 0);
+        local_order(&mut rep, m, 1);
+        local_order(&mut rep, m, 2);
     }
     step_count_law(&mut rep, Method::RK23, 3.0);
     step_count_law(&mut rep, Method::DOPRI5, 5.0);
